@@ -234,7 +234,7 @@ pub fn finish(ctx: &Ctx, prop: &str, mut rep: Report, selfcheck: &[String]) -> i
             if !seen.insert(h) {
                 continue;
             }
-            let path = dir.join(format!("{}-{:016x}.json", v.kind, h));
+            let path = dir.join(format!("{}-{:016x}.json", v.kind.replace(|c: char| !(c.is_ascii_alphanumeric() || c == '-' || c == '_' || c == '.'), "_"), h));
             let _ = std::fs::write(&path, text + "\n");
             if printed < 10 {
                 println!("VIOLATION property={} replay={} kind={} {}", v.property, path.display(), v.kind, v.detail);
